@@ -350,3 +350,14 @@ CHECKS["C13"]["text"] = ("Deductive lemmas, proved for all maps (contracts/C13_t
                          "SimpleLookupMapping.update_record / lookup_by_key / remove_row_id on top of it: after "
                          "update_record a row is indexed under exactly its key and lookup_by_key returns exactly "
                          "the rows with that key. " + CHECKS["C13"]["text"])
+
+# ---- round 3: C37 offset-table lemma (DESIGN.md 15) ----------------------------------------------
+CHECKS["C37"]["text"] = ("Deductive lemma, proved for all offset tables and positions (contracts/C37_offsets.py): "
+                         "textbuilder.Replacer.get_input_pos returns the input offset of the last table entry at or "
+                         "before the output position plus the distance from it, under the tables' representation "
+                         "invariant (bisect.bisect_right through its assumed contract). " + CHECKS["C37"]["text"])
+CHECKS["C37"]["note"] += ("; that Replacer.__init__ establishes the tables' invariant is covered by the bounded tier "
+                          "only (string slicing and sorted() of patches are outside the VC generator)")
+CHECKS["C37"]["engine"] = "pysym+rtc"
+CHECKS["C37"]["technique"] = ("deductive lemma on Replacer.get_input_pos (own AST->SMT VC generator, z3/cvc5) + bounded "
+                              "run-time contracts on the real builders (exhaustive small scope + seeded sampling)")
